@@ -74,14 +74,19 @@ def Tbl.getnextF (plan : Plan) (s : Tbl K V) (cur : Cur) : Except Fault (Tbl K V
     let start := match cur.next with
       | some c => some c
       | none => rootId s1.root
-    match getnextLoop tid false (3 * s1.root.size + 3) s1.root start with
+    match getnextLoop tid (3 * s1.root.size + 3) s1.root start with
     | .error f => .error f
     | .ok (root, some a) =>
       let n := if isEmpty a.val then 1 else 2
-      if anyFail plan n then .ok ({ s1 with root := root }, .enomem, n)
+      if anyFail plan n then
+        -- the copies are made BEFORE the node is marked: undo the mark of the committing loop
+        -- (the loop changes no other stamp, so the old one is the node's stamp before the call)
+        let old : UInt8 := match lookup a.id s1.root with
+          | some (.node _ e _ _) => e.tid
+          | _ => a.tid
+        .ok ({ s1 with root := modify a.id (fun e => { e with tid := old }) root }, .enomem, n)
       else
-        .ok ({ s1 with root := modify a.id (fun e => { e with tid := tid }) root },
-             .item a.key a.val { tid := tid, next := some a.id }, n)
+        .ok ({ s1 with root := root }, .item a.key a.val { tid := tid, next := some a.id }, n)
     | .ok (root, none) => .ok (resetIterator { s1 with root := root }, .done, 0)
 
 /-- `qtreetbl_find_nearest(…, newmem = true)` -/
